@@ -341,14 +341,13 @@ Definition event_obj (e : event) : option (string * bool) :=   (* key with kind,
   | _ => None
   end.
 
-(* a foreign-class event is answered silently: nothing but delete changes without error and without
-   warnings for that object (a delete change that carries warnings makes the controller write a
-   Rejected event and status for an object it does not own), and no problem about it *)
+(* a foreign-class event is answered silently at the level of Configuration: nothing but delete changes
+   without error for that object, and no problem about it.  (The delete change may still carry the
+   warnings the resource had while it was served; whether the controller stays silent about them is
+   observed directly on the recorded Events and status writes, see [ctl_run].) *)
 Definition silent_for (k : string) (ob : obs) : Z :=
   if negb (forallb (fun c => negb (String.eqb (rkey (c_res c)) k) ||
                              (match c_op c with Delete => true | AddOrUpdate => false end && negb (c_err c))) (ob_changes ob)) then 1
-  else if negb (forallb (fun c => negb (String.eqb (rkey (c_res c)) k) ||
-                                  match res_warnings (c_res c) with [] => true | _ => false end) (ob_changes ob)) then 2
   else if negb (forallb (fun p => negb (String.eqb (p_obj p) k)) (ob_problems ob)) then 3
   else 0.
 
@@ -395,7 +394,8 @@ Definition is_ok (r : report) : bool := match r with ROk _ => true | _ => false 
 Definition nonempty {A} (l : list A) : bool := match l with [] => false | _ => true end.
 
 (* processChanges: what the controller reports for one change.  [in_cluster k] = the object still
-   exists in the informer store (a delete change of an object that is gone is not reported). *)
+   exists in the informer store and is of the controller's class (a delete change of an object that
+   is gone, or that moved to another class, is not reported). *)
 Definition reports_of_change (in_cluster : string -> bool) (c : change) : list (string * report) :=
   let r := c_res c in
   match c_op c with
@@ -454,6 +454,20 @@ Definition cluster_apply (cl : smap event) (e : event) : smap event :=
   | EDelVSR k => remove ("VirtualServerRoute/" ++ k) cl
   | EDelTS k => remove ("TransportServer/" ++ k) cl
   | _ => cl
+  end.
+
+(* the object exists in the informer store and is of the controller's class: processChanges looks the
+   object of a delete change up and reports nothing unless both hold *)
+Definition own_in_cluster (cl : smap event) (k : string) : bool :=
+  match lookup k cl with
+  | Some e => match event_obj e with Some (_, cls) => cls | None => false end
+  | None => false
+  end.
+
+Definition foreign_in_cluster (cl : smap event) (k : string) : bool :=
+  match lookup k cl with
+  | Some e => match event_obj e with Some (_, cls) => negb cls | None => false end
+  | None => false
   end.
 
 Definition owns_some_host (ob : obs) (k : string) : bool := existsb (fun hv => String.eqb (snd hv) k) (ob_hosts ob).
@@ -519,7 +533,7 @@ Fixpoint c05_run (cf : cfg) (cl : smap event) (last : smap report) (es : list ev
   match es, os with
   | e :: er, ob :: orest =>
       let cl' := cluster_apply cl e in
-      let last' := fold_left (fun m kr => insert (fst kr) (snd kr) m) (reports_of_step_ev e (fun k => mem k cl') ob) last in
+      let last' := fold_left (fun m kr => insert (fst kr) (snd kr) m) (reports_of_step_ev e (own_in_cluster cl') ob) last in
       if negb (error_reported e ob) then (i, 9)
       else
         match filter_map (fun kv => let d := truthful cf ob last' (fst kv) (snd kv) in if d =? 0 then None else Some d) cl' with
@@ -540,7 +554,7 @@ Fixpoint c05_who (cf : cfg) (cl : smap event) (last : smap report) (es : list ev
   match es, os with
   | e :: er, ob :: orest =>
       let cl' := cluster_apply cl e in
-      let last' := fold_left (fun m kr => insert (fst kr) (snd kr) m) (reports_of_step_ev e (fun k => mem k cl') ob) last in
+      let last' := fold_left (fun m kr => insert (fst kr) (snd kr) m) (reports_of_step_ev e (own_in_cluster cl') ob) last in
       match filter_map (fun kv => let d := truthful cf ob last' (fst kv) (snd kv) in if d =? 0 then None else Some (fst kv, d)) cl' with
       | [] => c05_who cf cl' last' er orest
       | l => l
@@ -588,13 +602,12 @@ Fixpoint ctl_run (cf : cfg) (cl : smap event) (last : smap report) (es : list ev
          own (missing Secret, ...) that the arbitration model does not know *)
       let merge := fun z : Z => if z =? 2 then 1 else z in
       let model := zsort (map (fun kr => (fst kr, merge (report_code (snd kr))))
-                              (reports_of_step_ev e (fun k => mem k cl') ob +++ flat_map synthetic_vsr_reports (ob_changes ob))) in
+                              (reports_of_step_ev e (own_in_cluster cl') ob +++ flat_map synthetic_vsr_reports (ob_changes ob))) in
       let real := zsort (map (fun kr => (fst kr, merge (snd kr))) (ct_events ct)) in
       let last' := fold_left (fun m kr => insert (fst kr) (report_of_code (snd kr)) m) (ct_events ct) last in
       let bad := filter_map (fun kv => let d := truthful cf (ct_obs ct) last' (fst kv) (snd kv) in if d =? 0 then None else Some d) cl' in
-      let foreign := match event_obj e with
-                     | Some (k, false) => existsb (fun x => String.eqb (fst x) k) (ct_events ct) || existsb (String.eqb k) (ct_writes ct)
-                     | _ => false end in
+      (* no object that is of a foreign class now (the one of this event or any other) is named by an Event or a status write *)
+      let foreign := existsb (fun x => foreign_in_cluster cl' (fst x)) (ct_events ct) || existsb (foreign_in_cluster cl') (ct_writes ct) in
       ctl_run cf cl' last' er orest crest (i + 1)
               (if (dx =? 0) && negb (eqb_of evs_dec model real) then i else dx,
                if (ds =? 0) && (nonempty bad || (ct_verr_expected ct && negb (ct_verr_reported ct))) then i else ds,
